@@ -89,6 +89,9 @@ def run(chk, units):
         for ui, u in enumerate(units):
             for c in chunks(u["formulas"], max(1, min(len(u["formulas"]), NPROC * 2))):
                 tasks.append({"g": u["g"], "trees": u["trees"], "formulas": [{"id": f["id"], "text": f["text"]} for f in c]})
+                if u["name"] in catalogue.SIBLING_OF:
+                    sib, inp = catalogue.SIBLING_OF[u["name"]]
+                    tasks[-1]["prelude"] = {"g": pj.grammar_to_json(catalogue.GRAMMARS[sib]), "input": inp}
                 index.append((ui, c))
         results = pmap("c03", tasks, timeout=1500)
         jobs = []
